@@ -364,6 +364,23 @@ func work(ctx *runner.Ctx) {
 		mpclgen.Statements(quick, genEmit)
 		mpclgen.Casts(quick, genEmit)
 	}
+	// (g) degenerate shapes: one party's input is zero bits wide; 1-bit outputs; every OT incl. RSA
+	zero := []string{
+		"package main\nfunc main(g uint16, e [0]byte) (uint8, uint16) {\n\treturn uint8(g >> 3), g + 1\n}\n",
+		"package main\nfunc main(g [0]byte, e uint8) (uint8, bool) {\n\treturn e ^ 0x5a, e > 7\n}\n",
+		"package main\nfunc main(g uint1, e [0]byte) uint1 {\n\treturn g\n}\n",
+	}
+	for _, p := range zero {
+		for _, v := range []string{"0", "1", "37", "65535"} {
+			for _, o := range append(ots, "rsa") {
+				g, e := v, "0"
+				if strings.Contains(p, "g [0]byte") {
+					g, e = "0", v
+				}
+				cases = append(cases, cs{Src: p, G: g, E: e, OT: o, Regime: "all", Seed: seed})
+			}
+		}
+	}
 	ctx.Note(fmt.Sprintf("case list: %d sessions", len(cases)))
 	for i, k := range cases {
 		if !ctx.Mine(i) {
